@@ -263,6 +263,46 @@ func directC06extra(g *G, rep *Report) {
 			rep.DistinctNT++
 		}
 	}
+	// 4. every print directive (valid and out-of-range arguments, chains of two) on hostile strings: bytes that are
+	// not UTF-8 (lone lead and continuation bytes, truncated sequences, overlong forms, surrogates), NUL, entity-like
+	// text, long runs.  A finite value must give a finite render: OK or ERR, never PANIC / HANG.
+	{
+		hostile := []string{"\xe4", "w\xf6rld", "caf\xc3", "\x80\x80", "\xf0\x9f\x98", "\xc0\xaf", "\xed\xa0\x80", "a\x00b", "\xff\xfe\xfd", "&amp;&#x;&#99999999;&", "<\xe9>",
+			strings.Repeat("\xe9", 70), strings.Repeat("é", 33) + "\xc3", strings.Repeat("a", 200) + "\x80", "x\n\r\n\xa0y", ""}
+		dirs := []string{"|escapeHtml", "|noAutoescape", "|id", "|escapeUri", "|escapeJsString", "|changeNewlineToBr", "|insertWordBreaks:1", "|insertWordBreaks:3", "|insertWordBreaks:1000",
+			"|truncate:1", "|truncate:3", "|truncate:4,false", "|truncate:0", "|truncate:1000", "|json", "|insertWordBreaks:0", "|truncate:-2"}
+		var chains []string
+		for _, a := range dirs {
+			chains = append(chains, a)
+		}
+		for i := 0; i < g.N(60, 289); i++ {
+			chains = append(chains, dirs[r.Intn(len(dirs))]+dirs[r.Intn(len(dirs))])
+		}
+		for _, ch := range chains {
+			src := "{namespace hd}\n/** @param s */\n{template .t}\n[{$s" + ch + "}]{let $c}{$s" + ch + "}{/let}{$c" + ch + "}\n{/template}\n"
+			reg, err := compileBundle([]srcFile{{"hd.soy", src}})
+			if err != nil {
+				rep.Distribution["hostile-directive:COMPILE-ERR"]++
+				continue
+			}
+			for _, s := range hostile {
+				_, class := renderSafe(reg, "hd.t", data.Map{"s": data.String(s)}, nil)
+				rep.Evaluations++
+				rep.Distribution["hostile-directive:"+class]++
+				if class == "PANIC" || class == "HANG" {
+					viol("hostile-directive:"+ch, "a print with the directive chain "+ch+" on the value "+strconv.Quote(s)+" does not return normally: "+class, src, class)
+					if class == "HANG" {
+						break
+					}
+				} else {
+					rep.DistinctNT++
+				}
+			}
+			if len(rep.Violations) >= 3 {
+				break
+			}
+		}
+	}
 	if len(rep.Samples) < 2 {
 		rep.Samples = append(rep.Samples, "range(0, 3, 0.5) / duplicate d.t in a.soy+a.soy / globals '= 42' ...")
 	}
